@@ -38,6 +38,14 @@ ref::Pos synthetic(Rng& r, int templ);
 /** <=16 men/side, promotion-consistent, one king each, kings not adjacent. */
 bool countsOk(const ref::Pos& p);
 
+/** Non-capturing non-pawn move. */
+bool reversible(const ref::Pos& p, const ref::Mv& m);
+/** Four reversible, castling-right preserving moves a, b, a^-1, b^-1 that lead back to p. */
+bool findCycle(Rng& r, const ref::Pos& p, ref::Mv out[4]);
+/** A position and a double pawn push in it after which the e.p. square is pseudo-legal only
+ *  (the capturing pawn is pinned along the rank): FIDE-identical to later occurrences. */
+bool epPinnedPush(Rng& r, ref::Pos& before, ref::Mv& push);
+
 /** Structural features measured with refchess (used for evidence: what was really produced). */
 struct Features {
     bool inCheck = false, doubleCheck = false, pinned = false, epAvail = false, epPseudoOnly = false;
